@@ -83,7 +83,15 @@ def evaluate(case):
         with warnings.catch_warnings(), np.errstate(all="ignore"):
             warnings.simplefilter("ignore")
             fl = fp.FlowPropertiesTwoPhase.from_table(dict(tb), krt, rho, phi, Sw, float(p[len(p) // 2]))
+            # the same table listed from high to low pressure: every row keeps its own saturation
+            tb_r = {k: np.asarray(v)[::-1].copy() for k, v in tb.items()}
+            fl_r = fp.FlowPropertiesTwoPhase.from_table(tb_r, krt, rho, phi, Sw, float(p[len(p) // 2]))
         ta = np.asarray(fl.pvt_props["alpha"], dtype=float)
+        pr_, ar_ = np.asarray(fl_r.pvt_props["pressure"], dtype=float), np.asarray(fl_r.pvt_props["alpha"], dtype=float)
+        o_ = np.argsort(pr_)
+        if not (np.array_equal(pr_[o_], np.asarray(p, dtype=float)) and np.allclose(ar_[o_][ok], ta[ok], rtol=1e-9, atol=0)):
+            viol.append(V("diffusivity/tabulated-row-order", "from_table on the same table listed by descending pressure "
+                          "pairs pressures with other rows' diffusivity", case=case))
         if ok.any() and not np.allclose(ta[ok], (lam_want / want)[ok], rtol=1e-7, atol=0):
             viol.append(V("diffusivity/tabulated", "alpha tabulated by from_table is not documented lambda / c",
                           case=case))
@@ -93,8 +101,9 @@ def evaluate(case):
 
 def cases(tier, seed):
     fams = ["shipped", "shipped0", "constant", "invB-linear", "kinked", "vaporised"]
-    grids = ["uniform", "geometric", "irregular", "integer"] if tier == "thorough" else ["uniform", "irregular", "integer"]
-    sos = [None, 0.2, 0.5, 0.8]
+    grids = (["uniform", "geometric", "irregular", "integer", "high"] if tier == "thorough"
+             else ["uniform", "irregular", "integer", "high"])
+    sos = [None, 0.05, 0.2, 0.5, 0.8]  # 0.05 and 0.2 are at/below the oil residual of some rel-perm sets
     phis = [0.005, 0.05, 0.1, 0.3]
     sws = [0.0, 0.1, 0.25]
     if seed:
@@ -107,6 +116,8 @@ def cases(tier, seed):
             continue
         out.append({"family": fam, "grid": g if not fam.startswith("shipped") else "shipped", "So": so, "phi": phi, "Sw": sw,
                     "rho": r, "kr": (len(out) % len(KRS)), "seed": seed})
+        if so in (0.05, 0.2) and phi == 0.1 and sw == 0.1:  # every rel-perm set with oil at/below residual
+            out += [dict(out[-1], kr=k) for k in range(len(KRS)) if k != out[-1]["kr"]]
     return out
 
 
